@@ -166,7 +166,7 @@ def materialize(nodes, v):
 # --------------------------------------------------------------------- libraries
 
 
-def gen_library(rng, tag, n_classes=None, unamb=False, with_deprecated=False, with_twins=False, cfg_defaults=False):
+def gen_library(rng, tag, n_classes=None, unamb=False, with_deprecated=False, with_twins=False, cfg_defaults=False, multi=None):
     """classes are numbered so that argument types only mention earlier classes (plus
     optional forward references for cycles)"""
     pkg = f"xvlib_{tag}"
@@ -270,7 +270,168 @@ def gen_library(rng, tag, n_classes=None, unamb=False, with_deprecated=False, wi
             if c["name"].startswith("C") and not c["deprecated"]:
                 classes.append({"name": "T" + c["name"][1:], "xpmid": f"{pkg}.t{c['name'][1:]}", "parent": c["parent"], "kind": c["kind"],
                                 "deprecated": False, "args": copy.deepcopy(c["args"]), "twin_of": c["name"]})
-    return {"pkg": pkg, "enums": enums, "classes": classes}
+    lib = {"pkg": pkg, "enums": enums, "classes": classes}
+    if multi is None:
+        multi = False
+    elif multi == "some":
+        import random as _random
+        multi = _random.Random(f"multi-{tag}").random() < 0.18    # does not consume `rng`: the other classes stay what they were
+    if multi:
+        import random as _random
+        add_multiple_inheritance(_random.Random(f"mi-{tag}"), lib)
+    return lib
+
+
+# --------------------------------------------------------------------- multiple inheritance
+
+
+def bases_of(c):
+    """names of the configuration bases of a class, in `__bases__` order"""
+    return list(c.get("bases") or ([c["parent"]] if c["parent"] else []))
+
+
+def cls_of(lib, name):
+    return next(x for x in lib["classes"] if x["name"] == name)
+
+
+def mro_of(lib, cname):
+    """Python's C3 linearisation restricted to the classes of the library (the class itself first)"""
+    def merge(seqs):
+        res = []
+        seqs = [list(q) for q in seqs if q]
+        while seqs:
+            for q in seqs:
+                h = q[0]
+                if not any(h in r[1:] for r in seqs):
+                    break
+            else:
+                raise ValueError(f"inconsistent hierarchy at {cname}")
+            res.append(h)
+            seqs = [[x for x in q if x != h] for q in seqs]
+            seqs = [q for q in seqs if q]
+        return res
+    bs = bases_of(cls_of(lib, cname))
+    return [cname] + merge([mro_of(lib, b) for b in bs] + [bs])
+
+
+def own_arg(c, name):
+    return next((a for a in c["args"] if a["name"] == name), None)
+
+
+def resolve_arg(lib, cname, name):
+    """(owner class, its declaration) of parameter `name` for class `cname` as `ObjectType.__initialize__` finds it: the
+    class's own declarations, then the argument tables of its bases in `__bases__` order, each searched the same way
+    (a ChainMap of ChainMaps: depth-first, base by base)"""
+    c = cls_of(lib, cname)
+    a = own_arg(c, name)
+    if a is not None:
+        return cname, a
+    for b in bases_of(c):
+        r = resolve_arg(lib, b, name)
+        if r is not None:
+            return r
+    return None
+
+
+def resolve_arg_mro(lib, cname, name):
+    """the same under the other rule (nearest declaration in the MRO)"""
+    for k in mro_of(lib, cname):
+        a = own_arg(cls_of(lib, k), name)
+        if a is not None:
+            return k, a
+    return None
+
+
+def effective_arg(lib, owner, a):
+    """the declaration as `ArgumentOptions.create` sees it: a class attribute `= v` missing in the class body is looked up by
+    Python along the MRO of the declaring class (`getattr(originaltype, name, None)`)"""
+    if "default" in a or a["decl"] in ("factory", "pathgen"):
+        return a
+    for k in mro_of(lib, owner)[1:]:
+        b = own_arg(cls_of(lib, k), a["name"])
+        if b is not None and "default" in b:
+            e = dict(a)
+            e["default"] = b["default"]
+            e["inherited_default"] = k
+            return e
+    return a
+
+
+def arg_names(lib, cname):
+    """parameter names of a class: those of its bases first (base by base), then its own; each once"""
+    c = cls_of(lib, cname)
+    names = []
+    for b in bases_of(c):
+        names += [n for n in arg_names(lib, b) if n not in names]
+    names += [a["name"] for a in c["args"] if a["name"] not in names]
+    return names
+
+
+def add_multiple_inheritance(rng, lib):
+    """classes with two configuration bases.  Shapes on which "depth-first through the bases" (the code) and "nearest in the
+    MRO" give the same declaration for every parameter:
+      diamond  A <- B1 (re-declares a parameter of A: other annotation, default or type), A <- B2 (adds a parameter, and may
+               re-declare the same one as B1), M(B1, B2);
+      join     P1, P2 unrelated, both declaring `w` differently, Q(P1, P2)."""
+    pkg = lib["pkg"]
+    classes = lib["classes"]
+    enums = lib["enums"]
+    used_all = {a["name"] for c in classes for a in c["args"]}
+    fresh = [n for n in ["mi_p", "mi_q", "mi_r", "mi_s", "mi_t", "mi_u"] if n not in used_all]
+    k = 0
+
+    def redeclare(a):
+        """another declaration for the same name"""
+        b = {"name": a["name"], "optional": a["optional"], "ty": a["ty"]}
+        r = rng.random()
+        if r < 0.45:
+            b["decl"] = rng.choice(["meta", "option"]) if a["decl"] == "param" else "param"
+            if "default" in a and rng.random() < 0.4:
+                b["default"] = a["default"]
+        elif r < 0.8:
+            b["decl"] = a["decl"]
+            b["default"] = gen_plain_default(rng, a["ty"], {"enums": enums})
+            b["optional"] = False
+        else:
+            b["decl"] = rng.choice(["param", "meta"])
+            b["ty"] = rng.choice([t for t in ["int", "str", "bool"] if t != a["ty"]])
+            b["default"] = gen_scalar(rng, b["ty"], {"enums": enums})      # its own default: the inherited one has another type
+            b["optional"] = False
+        return b
+
+    cands = [c for c in classes if c["kind"] == "config" and not c["deprecated"] and not c.get("twin_of") and c["name"].startswith("C")
+             and any(a["decl"] in ("param", "meta", "option") and a["ty"] in ("int", "str", "bool", "float") for a in c["args"])]
+    for _ in range(rng.choice([1, 1, 2])):
+        if cands and rng.random() < 0.75 and len(fresh) >= 2:
+            A = rng.choice(cands)
+            x = rng.choice([a for a in A["args"] if a["decl"] in ("param", "meta", "option") and a["ty"] in ("int", "str", "bool", "float")])
+            b1 = {"name": f"CB{k}a", "xpmid": f"{pkg}.cb{k}a", "parent": A["name"], "bases": [A["name"]], "kind": "config", "deprecated": False,
+                  "args": [redeclare(x)]}
+            b2args = [{"name": fresh.pop(0), "decl": rng.choice(["param", "meta"]), "ty": rng.choice(["int", "str"]), "optional": True}]
+            if rng.random() < 0.3:
+                b2args.append(redeclare(x))
+            b2 = {"name": f"CB{k}b", "xpmid": f"{pkg}.cb{k}b", "parent": A["name"], "bases": [A["name"]], "kind": "config", "deprecated": False, "args": b2args}
+            margs = []
+            if rng.random() < 0.4:
+                margs.append({"name": fresh.pop(0), "decl": "param", "ty": "int", "optional": False, "default": rng.choice(INTS)})
+            m = {"name": f"CM{k}", "xpmid": f"{pkg}.cm{k}", "parent": b1["name"], "bases": [b1["name"], b2["name"]], "kind": "config", "deprecated": False,
+                 "args": margs}
+            classes += [b1, b2, m]
+        elif len(fresh) >= 1:
+            w = fresh.pop(0)
+            p1 = {"name": f"CP{k}a", "xpmid": f"{pkg}.cp{k}a", "parent": None, "kind": "config", "deprecated": False,
+                  "args": [{"name": w, "decl": rng.choice(["param", "meta", "option"]), "ty": "int", "optional": False, "default": rng.choice(INTS)}]}
+            p2 = {"name": f"CP{k}b", "xpmid": f"{pkg}.cp{k}b", "parent": None, "kind": "config", "deprecated": False,
+                  "args": [{"name": w, "decl": rng.choice(["param", "meta"]), "ty": rng.choice(["int", "str"]), "optional": True},
+                           {"name": "k", "decl": "param", "ty": "int", "optional": False}]}
+            q = {"name": f"CQ{k}", "xpmid": f"{pkg}.cq{k}", "parent": p1["name"], "bases": [p1["name"], p2["name"]], "kind": "config", "deprecated": False,
+                 "args": []}
+            classes += [p1, p2, q]
+        k += 1
+    for c in classes:
+        # the two rules must agree on every generated class (C15-N5 is about the shapes on which they do not)
+        for n in arg_names(lib, c["name"]):
+            assert resolve_arg(lib, c["name"], n)[0] == resolve_arg_mro(lib, c["name"], n)[0], (c["name"], n)
 
 
 def val_src(v):
@@ -302,7 +463,7 @@ def emit_source(lib, extra_body=None):
             out.append(f"    {m} = {i}")
         out.append("")
     for c in lib["classes"]:
-        base = c["parent"] or {"config": "Config", "task": "Task", "light": "LightweightTask"}[c["kind"]]
+        base = ", ".join(bases_of(c)) or {"config": "Config", "task": "Task", "light": "LightweightTask"}[c["kind"]]
         if c["deprecated"]:
             out.append("@deprecate")
         out.append(f"class {c['name']}({base}):")
@@ -335,16 +496,19 @@ def emit_source(lib, extra_body=None):
 
 
 def all_args(lib, cname):
-    """inherited + own argument specs of a class (parents first)"""
-    c = next(x for x in lib["classes"] if x["name"] == cname)
-    res = all_args(lib, c["parent"]) if c["parent"] else []
-    return res + c["args"]
+    """the argument specs in force for a class (inherited ones first): for each name the declaration
+    `ObjectType.__initialize__` resolves (`resolve_arg`), with the class attribute Python finds for it (`effective_arg`)"""
+    out = []
+    for n in arg_names(lib, cname):
+        owner, a = resolve_arg(lib, cname, n)
+        out.append(effective_arg(lib, owner, a))
+    return out
 
 
 def subclasses(lib, cname):
     res = [cname]
     for c in lib["classes"]:
-        if c["parent"] and c["parent"] in res and c["name"] not in res and not c["deprecated"] and not c.get("twin_of"):
+        if any(b in res for b in bases_of(c)) and c["name"] not in res and not c["deprecated"] and not c.get("twin_of"):
             res.append(c["name"])
     return res
 
